@@ -10,6 +10,7 @@ import (
 	"net/http"
 	"net/url"
 	"slices"
+	"sort"
 	"strings"
 	"sync"
 	"sync/atomic"
@@ -150,10 +151,26 @@ type rtCheck struct {
 	inner    http.RoundTripper
 	mu       sync.Mutex
 	mismatch bool
+	mutated  string
+}
+
+func reqShape(req *http.Request) string {
+	keys := make([]string, 0, len(req.Header))
+	for k := range req.Header {
+		keys = append(keys, k+"="+strings.Join(req.Header[k], ","))
+	}
+	sort.Strings(keys)
+	return fmt.Sprintf("%s %s host=%q hdr=%v", req.Method, req.URL.String(), req.Host, keys)
 }
 
 func (r *rtCheck) RoundTrip(req *http.Request) (*http.Response, error) {
+	before := reqShape(req)
 	resp, err := r.inner.RoundTrip(req)
+	if after := reqShape(req); after != before {
+		r.mu.Lock()
+		r.mutated = fmt.Sprintf("before: %s after: %s", before, after)
+		r.mu.Unlock()
+	}
 	if err == nil && resp != nil && resp.Request != req {
 		r.mu.Lock()
 		r.mismatch = true
@@ -191,7 +208,7 @@ func usableTCP(h dns.HTTPS) bool {
 
 func TestC19(t *testing.T) {
 	rec := ev.Get("C19")
-	rec.Rule("per case a loopback deployment: 2..4 origins (distinct host names incl. IPv6 literals, several hosts on one listener, default and explicit ports, http and https URLs), each answered by a real crypto/tls HTTP server that issues a certificate for the requested SNI from the test CA and supports ECH, HTTPS RRsets drawn from none / service records with ALPN sets over {h3,h2,http/1.1,other}, no-default-alpn, distinct priorities, port=, ech=, targets / an alias to another name; Transport with or without a recording HTTP/3 round-tripper that dials through ech.Dialer with the request context; some targets marked down; 3..10 GETs across the origins with connection reuse. Oracle: plaintext refusal (http without HTTPS records fails, nothing reaches a server), http upgraded when HTTPS records exist, every request seen by a server carries the original Host, arrives with SNI = URL host on a connection dialed for that host and port, h3 chosen iff the reference decision over the record set says so and then exactly the h3-capable targets are offered (otherwise the h2/http1.1-compatible ones, in order), resp.Request is the caller's request. distinct = (origin shapes, record sets, request order); non-trivial = 2+ origins share an address or a record offers h3")
+	rec.Rule("per case a loopback deployment: 2..4 origins (distinct host names incl. IPv6 literals, several hosts on one listener, default and explicit ports, http and https URLs), each answered by a real crypto/tls HTTP server that issues a certificate for the requested SNI from the test CA and supports ECH, HTTPS RRsets drawn from none / service records with ALPN sets over {h3,h2,http/1.1,other}, no-default-alpn, distinct priorities, port=, ech=, targets / an alias to another name; Transport with or without a recording HTTP/3 round-tripper that dials through ech.Dialer with the request context; some targets marked down; 3..10 GETs across the origins with connection reuse. Oracle: plaintext refusal (http without HTTPS records fails, nothing reaches a server), http upgraded when HTTPS records exist, every request seen by a server carries the original Host, arrives with SNI = URL host on a connection dialed for that host and port, h3 chosen iff the reference decision over the record set says so and then exactly the h3-capable targets are offered (otherwise the h2/http1.1-compatible ones, in order), resp.Request is the caller's request and RoundTrip leaves that request (method, URL, Host, headers) unmodified. distinct = (origin shapes, record sets, request order); non-trivial = 2+ origins share an address or a record offers h3")
 	rec.Mandatory("host_override", "same_host_other_port", "http_upgrade", "plaintext_refused", "h3_chosen", "h3_not_chosen_with_h3_record", "same_address_different_hosts", "ipv6_literal", "conn_reused", "explicit_port", "alias", "target_down")
 	rapid.Check(t, func(t *rapid.T) {
 		S := c19Start(t)
@@ -455,6 +472,9 @@ func TestC19(t *testing.T) {
 				rp := map[string]any{"origins": fmt.Sprintf("%+v", origins), "zone": z.Describe(), "request": o.url(), "req_index": i, "with_h3": withH3, "results": results, "down": fmt.Sprint(down)}
 				if isPanic(rerr) {
 					ev.Violation(t, "C19", rp, "RoundTrip panicked: %v", rerr)
+				}
+				if rtc.mutated != "" {
+					ev.Violation(t, "C19", rp, "RoundTrip modified the request it was given (%s)", rtc.mutated)
 				}
 				time.Sleep(2 * time.Millisecond) // let attempts that were released by the outcome get logged
 				dmu.Lock()
